@@ -18,7 +18,7 @@ Steps are added to the pipeline in a certain order:
 """
 import itertools
 from abc import ABC, abstractmethod
-from typing import Tuple, Optional, Any, TextIO, Sequence, List
+from typing import Dict, Tuple, Optional, Any, TextIO, Sequence, List
 
 from dnaio import SequenceRecord
 
@@ -327,6 +327,18 @@ class PairedEndSink(PairedEndStep, HasStatistics):
         return self._statistics
 
 
+def _open_record_writer_once(outfiles: OutputFiles, opened: Dict, *paths: str):
+    """
+    Open a record writer for the given path(s) unless that was already done.
+
+    Adapters can share a name (or be named "unknown"), and opening the same
+    output file twice would let the two file objects overwrite each other's data.
+    """
+    if paths not in opened:
+        opened[paths] = outfiles.open_record_writer(*paths)
+    return opened[paths]
+
+
 class Demultiplexer(SingleEndStep, HasStatistics, HasFilterStatistics):
     """
     Demultiplex trimmed reads. Reads are written to different output files
@@ -362,9 +374,10 @@ class Demultiplexer(SingleEndStep, HasStatistics, HasFilterStatistics):
         outfiles: OutputFiles,
     ):
         writers = dict()
+        opened: Dict = dict()
         for name in adapter_names:
             path = template.replace("{name}", name)
-            writers[name] = outfiles.open_record_writer(path)
+            writers[name] = _open_record_writer_once(outfiles, opened, path)
         if discard_untrimmed:
             untrimmed = None
         else:
@@ -373,7 +386,7 @@ class Demultiplexer(SingleEndStep, HasStatistics, HasFilterStatistics):
                 untrimmed_path = untrimmed_output
             else:
                 untrimmed_path = template.replace("{name}", "unknown")
-            untrimmed = outfiles.open_record_writer(untrimmed_path)
+            untrimmed = _open_record_writer_once(outfiles, opened, untrimmed_path)
 
         return writers, untrimmed
 
@@ -441,10 +454,13 @@ class PairedDemultiplexer(PairedEndStep, HasStatistics, HasFilterStatistics):
         outfiles: OutputFiles,
     ):
         demultiplex_out = dict()
+        opened: Dict = dict()
         for name in adapter_names:
             path1 = template1.replace("{name}", name)
             path2 = template2.replace("{name}", name)
-            demultiplex_out[name] = outfiles.open_record_writer(path1, path2)
+            demultiplex_out[name] = _open_record_writer_once(
+                outfiles, opened, path1, path2
+            )
 
         if discard_untrimmed:
             untrimmed = None
@@ -457,7 +473,9 @@ class PairedDemultiplexer(PairedEndStep, HasStatistics, HasFilterStatistics):
                 untrimmed_path2 = untrimmed_paired_output
             else:
                 untrimmed_path2 = template2.replace("{name}", "unknown")
-            untrimmed = outfiles.open_record_writer(untrimmed_path1, untrimmed_path2)
+            untrimmed = _open_record_writer_once(
+                outfiles, opened, untrimmed_path1, untrimmed_path2
+            )
 
         return demultiplex_out, untrimmed
 
@@ -528,6 +546,7 @@ class CombinatorialDemultiplexer(PairedEndStep, HasStatistics, HasFilterStatisti
         outfiles: OutputFiles,
     ):
         writers = dict()
+        opened: Dict = dict()
         extra: List[Tuple[Optional[str], Optional[str]]]
         if discard_untrimmed:
             extra = []
@@ -542,7 +561,9 @@ class CombinatorialDemultiplexer(PairedEndStep, HasStatistics, HasFilterStatisti
             fname2 = name2 if name2 is not None else "unknown"
             path1 = template1.replace("{name1}", fname1).replace("{name2}", fname2)
             path2 = template2.replace("{name1}", fname1).replace("{name2}", fname2)
-            writers[(name1, name2)] = outfiles.open_record_writer(path1, path2)
+            writers[(name1, name2)] = _open_record_writer_once(
+                outfiles, opened, path1, path2
+            )
 
         return writers
 
